@@ -73,6 +73,16 @@ func main() {
 			os.Exit(2)
 		}
 	}
+	// watchdog: an analysis that does not terminate is a checker bug, reported as such
+	limit := 15 * time.Minute
+	if c.Tier == "thorough" {
+		limit = 60 * time.Minute
+	}
+	time.AfterFunc(limit, func() {
+		fmt.Printf("UNDECIDED checker/timeout:%s: analysis did not finish within %s\n", c.Prop, limit)
+		fmt.Printf("VIOLATION property=%s replay=%s\n", c.Prop, "/verif/out/"+c.Prop+"/timeout")
+		os.Exit(1)
+	})
 	code := runProp(c, pd)
 	if *noEvidence {
 		// fixture self-test: print failing obligation keys only
